@@ -46,9 +46,10 @@ class Ctx:
             c = gr._PROCESS_ATOM_CACHE
             dict.clear(c)
             dict.update(c, self._atom_cache0)
-        for fn in (getattr(bc, "get_bonding_capacity", None), getattr(bc, "get_semantic_robust_alphabet", None)):
-            if fn is not None and hasattr(fn, "cache_clear"):
-                fn.cache_clear()
+        for mod in (bc, gr, mg):
+            for nm, fn in list(vars(mod).items()):
+                if callable(fn) and hasattr(fn, "cache_clear") and getattr(fn, "__module__", None) == mod.__name__:
+                    fn.cache_clear()
         prop = getattr(mg.Atom, "bonding_capacity", None)
         if isinstance(prop, property) and hasattr(prop.fget, "cache_clear"):
             prop.fget.cache_clear()
